@@ -48,7 +48,7 @@ InitState(p) ==
   [p |-> p, n |-> 1, ix |-> <<0>>, pc |-> <<1>>, ph |-> <<"ready">>, fin |-> <<FALSE>>,
    acc |-> <<0>>, retv |-> <<0>>, ind |-> <<0>>, wk |-> <<FALSE>>, xr |-> <<FALSE>>,
    tok |-> <<FALSE>>, unpk |-> <<FALSE>>, gd |-> << [i \in 1..NSlots |-> NoGuard] >>,
-   cur |-> -1, slen |-> 0, rst |-> 0, panicked |-> "",
+   cur |-> -1, slen |-> 0, rst |-> 0, panicked |-> "", rv |-> 0,
    mh |-> [m \in 1..P.nmutex |-> -1], md |-> [m \in 1..P.nmutex |-> 0], mpz |-> [m \in 1..P.nmutex |-> FALSE],
    av |-> [a \in 1..Len(P.atomics) |-> P.atomics[a]],
    cv |-> [c \in 1..P.ncv |-> [list |-> <<>>, nextE |-> 0]],
@@ -195,6 +195,8 @@ Complete(s, t) ==
     [] o.k \in {"yield", "spin"} -> R(0, Wake(base, t))
     [] o.k \in {"sleep", "nop"} -> R(0, base)
     [] o.k = "acc" -> R(s.acc[t+1], base)
+    \* a draw from shuttle::rand (reduced mod 4): the value was appended to the schedule as a random marker
+    [] o.k = "rand" -> R(s.rv, base)
     [] o.k = "me" -> R(t, base)
     [] o.k = "ret" -> R(s.acc[t+1], [base EXCEPT !.retv[t+1] = s.acc[t+1]])
     \* ---- Mutex
